@@ -39,8 +39,8 @@ impl Check for C19 {
     }
     fn cases(&self, tier: Tier) -> u64 {
         match tier {
-            Tier::Quick => 8_000,
-            Tier::Thorough => 200_000,
+            Tier::Quick => 40_000,
+            Tier::Thorough => 1_000_000,
         }
     }
     fn tape_len(&self, _t: Tier) -> usize {
